@@ -76,6 +76,27 @@ PROPS["C12"] = dict(
     standins=["C12"],
     frame=["_converters", "_converters.append", "_converters.remove",
            "_converters.pop"])
+_DECL = [RG + "DefinedItemRegistry.register_item", Q + "QuantityMeta._make_unit",
+         Q + "QuantityMeta._make_ref_unit", Q + "QuantityMeta.new_unit",
+         Q + "Unit.__new__", Q + "QuantityMeta.__contains__",
+         Q + "QuantityMeta.get_unit_by_symbol"]
+PROPS["C15"] = dict(functions=_DECL + [Q + "Quantity.__new__"],
+                    standins=["C15"],
+                    frame=["_SYMBOL_UNIT_MAP", "_TERM_UNIT_MAP.register_item",
+                           "_unit_map", "_equiv", "_definition", "_qty_cls",
+                           "_symbol", "_ref_unit", "_item_def_map",
+                           "_item_list.append", "raw-instance"])
+_DECL_NOTE = ("type creation (QuantityMeta.__new__/__init__ with the metaclass "
+              "protocol), derive_unit_from and the enumerating queries "
+              "units()/len/iter are covered by the bounded declaration-history "
+              "stand-in only, not by contracts")
+PROPS["C15"]["level"] = "other"
+PROPS["C15"]["level_note"] = _DECL_NOTE
+PROPS["C16"] = dict(functions=_DECL, standins=["C16"], level="other",
+                    level_note=_DECL_NOTE,
+                    frame=["_SYMBOL_UNIT_MAP", "_TERM_UNIT_MAP.register_item",
+                           "_unit_map", "_item_def_map", "_item_list.append",
+                           "_rate_dict.update", "_type_of_validity"])
 PROPS["C05"]["functions"] += _UNIT_ALG[:5] + _QTY_ALG
 
 ALL_IDS = [f"C{i:02d}" for i in range(1, 21)]
